@@ -228,9 +228,13 @@ pub fn c09(c: &Collector, g: &mut Guard) {
     // construction itself
     for w in 1..=140u32 {
         for l in [1u32, 2, 24, 40] {
-            let s = Screen::new(w, l);
-            let wf = crate::snapshot::wellformed(&s);
             c.add_transitions(1);
+            c.count("oracle_checks", 1);
+            // (the constructor is subject code: a panic there is C09's "after construction", not the harness's)
+            let wf = match build(w, l, &[]) {
+                Ok(s) => crate::snapshot::wellformed(&s),
+                Err((_, m)) => vec![format!("Screen::new({}, {}) panicked: {}", w, l, m)],
+            };
             if !wf.is_empty() {
                 c.violation(Violation {
                     property: "C09".into(),
@@ -444,6 +448,7 @@ pub fn c10(c: &Collector, g: &mut Guard) {
             Ok((s, post, d)) => {
                 let d = d.as_ref().unwrap();
                 local.count("display_calls");
+                local.count("oracle_checks");
                 let (absent, _) = crate::snapshot::residue(t.pre_screen);
                 if absent > 0 {
                     local.count("display_materialised_rows");
@@ -489,6 +494,7 @@ pub fn c10(c: &Collector, g: &mut Guard) {
             let with = run_op(&s2, t.op);
             local.transitions += 1;
             local.count("paired_runs");
+            local.count("oracle_checks");
             match (t.outcome, &with) {
                 (Ok((_, a, da)), Ok((_, b, db))) => {
                     if a != b {
@@ -625,6 +631,7 @@ pub fn c10(c: &Collector, g: &mut Guard) {
     let st = bfs(c, &seeds, depth, 4_000_000, mixed_alphabet, |c, t, local| {
         if matches!(t.op, Op::Display) {
             local.count("bfs_display");
+            local.count("oracle_checks");
             if let Ok((_, post, Some(d))) = t.outcome {
                 if let Some(m) = check_display(t.pre, d) {
                     viol(c, "C10", "E2.bfs", t, "mismatch:rendering", m);
@@ -642,6 +649,7 @@ pub fn c10(c: &Collector, g: &mut Guard) {
         if apply(&mut s2, &Op::Display).is_ok() {
             let with = run_op(&s2, t.op);
             local.count("paired_runs");
+            local.count("oracle_checks");
             if let (Ok((_, a, _)), Ok((_, b, _))) = (t.outcome, &with) {
                 if a != b {
                     let diffs = compare(a, b, &Default::default(), &ALL_COMPS);
@@ -674,10 +682,18 @@ pub fn c15_compare(c: &Collector, t: &Trans, engine: &str, local: &mut Local, co
         }
     };
     local.count("resets");
+    local.count("oracle_checks");
     // the statement is relational: "equal those of a newly constructed screen of the current
     // dimensions" (what a new screen looks like is stated only for tab stops, C18, and character
     // sets, C20, and is checked there), "and every row is marked dirty"
-    let mut exp = snap(&Screen::new(post.columns, post.lines));
+    let newscreen = match build(post.columns, post.lines, &[]) {
+        Ok(s) => s,
+        Err((_, m)) => {
+            viol(c, "C15", engine, t, &format!("panic:{}", panic_class(&m)), format!("Screen::new({}, {}) panicked: {}", post.columns, post.lines, m));
+            return;
+        }
+    };
+    let mut exp = snap(&newscreen);
     exp.dirty = (0..post.lines).collect();
     exp.saves = t.pre.saves.clone(); // the saved-cursor stack is the one thing RIS leaves alone
     if (post.lines, post.columns) != (t.pre.lines, t.pre.columns) {
@@ -697,7 +713,7 @@ pub fn c15_compare(c: &Collector, t: &Trans, engine: &str, local: &mut Local, co
     // hidden residue: compare full keys (stack erased); if they differ run bounded continuations
     let mut a = s.clone();
     a.savepoints.clear();
-    let b = Screen::new(a.columns, a.lines);
+    let b = newscreen;
     if full_key(&a) == full_key(&b) {
         local.count("reset_key_equal");
         return;
@@ -937,6 +953,7 @@ pub fn c17_judge(c: &Collector, t: &Trans, engine: &str, local: &mut Local) -> b
         Err(_) => return false,
     };
     local.count("judged");
+    local.count("oracle_checks");
     if !t.pre.dirty.is_empty() {
         // marks made since the last clear must survive later operations: every row that differs
         // from what it was when the set was last cleared (on the path that reached this state) has
@@ -1155,6 +1172,7 @@ pub fn c18(c: &Collector, g: &mut Guard) {
                 _ => vec![Op::Tbc(Some(3)), Op::Feed(vec!["\x1bc".into()], true)],
             };
             c.add_transitions(1);
+            c.count("oracle_checks", 1);
             match build(w, 1, &script) {
                 Ok(s) => {
                     let sn = snap(&s);
@@ -2490,6 +2508,7 @@ pub fn c20(c: &Collector, g: &mut Guard) {
                     let installed = if slot == "(" { &s.g0_charset } else { &s.g1_charset };
                     for i in 0..256u32 {
                         c.add_transitions(1);
+                        c.count("oracle_checks", 1);
                         let exp = tables::table_entry(id, i);
                         if installed[i as usize] != exp || table[i as usize] != exp {
                             c.violation(Violation {
